@@ -168,12 +168,12 @@ def correspond(ctx):
     for ast, obj in terms:
         sx = sc.comb_sx(obj)
         objs_by_sx[sx] = obj
-        for _ in range(ctx.n(12, 40)):
+        for _ in range(ctx.n(12, 20)):
             h, w = sc.random_dims(rng) if rng.random() < 0.25 else (rng.randint(1, 4), rng.randint(1, 4))
             if max(h, w) > 70 and ast[0] in ("rooms", "vrooms") and False:
                 continue
             texts = []
-            if h * w <= 4900:
+            if h * w <= 900:
                 t = _valid_text(rng, ast, obj, h, w)
                 if t is not None:
                     texts.append((t, "valid"))
